@@ -56,8 +56,13 @@ def build(case):
     # Reduced wrappers are created around a model that already knows n_ids (the
     # fixed names of heterogeneous dimensions only exist then); everything else is
     # told n_ids by the hierarchical likelihood itself.
-    pop = popbuild.build(
-        case['spec'], case['n_ids'] if case['spec']['kind'] == 'Red' else None)
+    if case.get('early'):
+        # ... except here: wrapper built and parameters fixed for one individual,
+        # the hierarchical likelihood then sets the number of individuals
+        pop = popbuild.build_early(case['spec'], case['n_ids'])
+    else:
+        pop = popbuild.build(
+            case['spec'], case['n_ids'] if case['spec']['kind'] == 'Red' else None)
     cov = None if case['cov'] is None else np.array(case['cov'])
     return chi.HierarchicalLogLikelihood(build_likelihoods(case), pop, cov)
 
